@@ -2,7 +2,7 @@
 SPECIFICATION Spec
 CONSTANTS
   N = 8
-  Vals = {-1, 0, 1}
+  Vals <- SignedVals
   Ds = {1, 2, 3, 4}
   NGs = {0, 1}
   B = 8
